@@ -107,6 +107,8 @@ pub struct View {
     pub ended: bool,
     pub panic: Option<String>,
     pub budget: bool,
+    /// dropped by the scheduler before exhaustion
+    pub dropped: bool,
 }
 
 impl View {
@@ -156,6 +158,7 @@ impl View {
                 Ev::End { .. } => v.ended = true,
                 Ev::Panic { msg, .. } => v.panic = Some(msg.clone()),
                 Ev::Budget { .. } => v.budget = true,
+                Ev::Dropped { .. } => v.dropped = true,
                 Ev::Saw {
                     layer,
                     path,
